@@ -1,0 +1,33 @@
+//go:build verif
+// +build verif
+
+package stop
+
+// Verification hook for property C15 (add-only, compiled only with the
+// build tag "verif"): a read-only snapshot of the Stopper's guarded state,
+// taken under the Stopper's own mutex.  It calls nothing and changes nothing.
+
+// VerifSnap is the snapshot returned by VerifSnapshot.
+type VerifSnap struct {
+	Quiescing  bool
+	NumTasks   int
+	StopCalled bool
+	NumClosers int
+	NumQCancel int
+	NumSCancel int
+}
+
+// VerifSnapshot reads mu.{quiescing,numTasks,stopCalled,len(closers),
+// len(qCancels),len(sCancels)} under s.mu.
+func (s *Stopper) VerifSnapshot() VerifSnap {
+	s.mu.Lock()
+	defer s.mu.Unlock()
+	return VerifSnap{
+		Quiescing:  s.mu.quiescing,
+		NumTasks:   s.mu.numTasks,
+		StopCalled: s.mu.stopCalled,
+		NumClosers: len(s.mu.closers),
+		NumQCancel: len(s.mu.qCancels),
+		NumSCancel: len(s.mu.sCancels),
+	}
+}
